@@ -2,6 +2,7 @@ package scen
 
 import (
 	"fmt"
+	"math"
 	"sort"
 	"time"
 
@@ -27,6 +28,14 @@ func (s *Seq) stampProbe(ctx string) {
 	y := func(year int) time.Time { return time.Date(year, 3, 4, 5, 6, 7, 8, time.UTC) }
 	// one or two times before the range, some inside, one or two after it
 	ts := []time.Time{{}, y(1950 + r.Intn(100)), y(1700), y(9999)}
+	// just beyond the two ends of the range (same calendar year as the end itself)
+	lo, hi := time.Unix(0, math.MinInt64).UTC(), time.Unix(0, math.MaxInt64).UTC()
+	switch r.Intn(3) {
+	case 1:
+		ts = append(ts, hi.Add(time.Duration(1+r.Intn(200))*24*time.Hour))
+	case 2:
+		ts = append(ts, lo.Add(-time.Duration(1+r.Intn(200))*24*time.Hour))
+	}
 	twoLow := r.Bool()
 	if twoLow {
 		ts = append(ts, y(1000+r.Intn(600)))
@@ -86,7 +95,7 @@ func (s *Seq) stampProbe(ctx string) {
 	}
 	for i := 1; i < len(objs); i++ {
 		a, b := objs[i-1].(*shapes.Stamp).At, objs[i].(*shapes.Stamp).At
-		inRange := func(t time.Time) bool { return t.Year() > 1678 && t.Year() < 2262 }
+		inRange := func(t time.Time) bool { return !t.Before(lo) && !t.After(hi) }
 		if a.Before(b) && (inRange(a) || inRange(b)) {
 			s.fail("order", "time-beyond-unixnano-range:order", "%s: Collect on the time index returns %v before %v", ctx, a, b)
 		}
@@ -95,7 +104,13 @@ func (s *Seq) stampProbe(ctx string) {
 	// what the int64 key cannot do (listed finding): tell two times on the same side of
 	// the range from each other, and give them back through AssignIndex
 	s.tolerateKnown(func() {
-		if twoLow {
+		nLow := 0
+		for _, t := range ts {
+			if t.Before(lo) {
+				nLow++
+			}
+		}
+		if nLow >= 2 {
 			if got := count("=", time.Time{}); got != 1 {
 				s.fail("search", "time-beyond-unixnano-range:indistinguishable:equal", "%s: with the times %v stored, At = zero time matches %d objects, expected 1", ctx, ts, got)
 			}
